@@ -89,6 +89,21 @@ fn judge_relations<F: Fl>(c: &Case, l: &mut Local) {
     let a_log = Arithmetic::<F>::from_iter(&logs).unwrap();
     let a_rec = Arithmetic::<F>::from_iter(&recs).unwrap();
     let a_x = Arithmetic::<F>::from_iter(&x).unwrap();
+    // the accessors reached through the trait (what generic code calls; never executed before the coverage measurement of
+    // round six) report what the inherent ones report, bit for bit
+    {
+        l.eval();
+        l.count("trait-qualified accessors judged");
+        fn via<F: Fl, S: StatisticsOps<F>>(s: &S) -> (u64, u64, usize) {
+            (s.sample_mean().bits64(), s.sample_sem().bits64(), s.sample_count())
+        }
+        let same = via::<F, _>(&g) == (g.sample_mean().bits64(), g.sample_sem().bits64(), g.sample_count())
+            && via::<F, _>(&h) == (h.sample_mean().bits64(), h.sample_sem().bits64(), h.sample_count())
+            && via::<F, _>(&a_x) == (a_x.sample_mean().bits64(), a_x.sample_sem().bits64(), a_x.sample_count());
+        if !same {
+            l.violation(format!("StatisticsOps::sample_*|{}|differs-from-inherent", F::TY), "sample_mean / sample_sem / sample_count through the StatisticsOps trait differ from the inherent accessors".to_string(), case(), json!({"n": n}));
+        }
+    }
     // incremental style agrees with from_iter
     let mut g2 = Geometric::<F>::new();
     let mut h2 = Harmonic::<F>::new();
